@@ -281,12 +281,19 @@ def rule_slot_siblings(ctx):
         if b is None:
             continue
         o = Origin(b)
-        for (bi, si) in Exits(b).ok_defs:
-            e = strip(o._rvalue(b.blocks[bi]["stmts"][si]["r"], (bi, si), 0))
-            if e[0] == "agg":
-                d = dict(e[3])
-                ctx.check(canon(d["rva"]) == ("field", ("param", 1), "position") and canon(d["data_size"]) == want, R, (fn.split("::")[-2] + "::location", "pos-size"), b.where(bi, si),
-                          "location() = (position, %s)" % ("size!(T)" if want == ("SIZE",) else "array_size * size!(T)"), "location() = (%s, %s)" % (show(d["rva"]), show(d["data_size"])))
+        from engine.summ import return_origins as _ro
+        from engine.origin import field_of as _fo, alts as _alts
+        rets = _ro(ctx.prog, b.short) or []
+        if not rets:
+            ctx.unproven(R, (fn.split("::")[-2] + "::location", "pos-size"), b.where(0), "cannot determine what location() returns")
+        for e0 in rets:
+            for e in _alts(e0):     # every alternative the function can return (an `if empty { zero }` special case is one of them)
+                rva, ds = _fo(e, "rva"), _fo(e, "data_size")
+                ok_ = rva is not None and ds is not None and canon(rva) == ("field", ("param", 1), "position") and canon(ds) == want
+                ctx.check(ok_, R, (fn.split("::")[-2] + "::location", "pos-size"), b.where(0),
+                          "location() = (position, %s)" % ("size!(T)" if want == ("SIZE",) else "array_size * size!(T)"),
+                          "location() can return (%s, %s) — not (position, %s): the reported offset/size no longer is where the object was reserved"
+                          % (show(rva)[:60] if rva is not None else show(e)[:60], show(ds)[:60] if ds is not None else "?", "size!(T)" if want == ("SIZE",) else "array_size * size!(T)"))
     b = ctx.body(R, "mem_writer::MemoryWriter::set_value")
     if b is not None:
         o = Origin(b)
